@@ -6,6 +6,7 @@
   theorems hold for operands built from any of the library's adaptors.
 -/
 import EasyMl.Lemmas.Arith
+import EasyMl.Model.ArithViews
 import EasyMl.Lemmas.ViewInjective
 
 namespace EasyMl.Arith
@@ -14,16 +15,6 @@ open EasyMl EasyMl.Spec
 set_option linter.unusedSectionVars false
 
 variable {ν : Type} [DecidableEq ν] [Inhabited ν] {α : Type}
-
-/-- A C02 view as an arithmetic operand: its shape, and the element read at an in-range index
-    tuple (arithmetic never reads any other). -/
-def TView.ofView (w : View ν α) : TView ν α :=
-  ⟨w.shape, fun idx =>
-    if inBounds (EasyMl.lens w.shape) idx then
-      (match w.read idx with
-       | .ok (some a) => some a
-       | _ => none)
-    else none⟩
 
 theorem find_leaf_of_mem (l : List (Nat × List α)) (hn : (l.map (·.1)).Nodup) (i : Nat)
     (d : List α) (hm : (i, d) ∈ l) : l.find? (·.1 == i) = some (i, d) := by
@@ -47,7 +38,9 @@ theorem TView.ofView_get (w : View ν α) (idx : List Nat) (hin : inBounds (Easy
     (TView.ofView w).get idx = (match w.read idx with
        | .ok (some a) => some a
        | _ => none) := by
-  simp [TView.ofView, hin]
+  cases h : w.read idx with
+  | panic k => simp [TView.ofView, hin, h]
+  | ok o => cases o <;> simp [TView.ofView, hin, h]
 
 theorem ofView_WF (w : View ν α) (h : w.WF) (hn : w.leafIds.Nodup) : (TView.ofView w).WF := by
   have hc := View.correct w h
